@@ -95,13 +95,26 @@ func runRespell(u *vk.Unit, pr *pkgRun) {
 				continue
 			}
 			// sanity: equivalent by the reference normaliser
-			a, okA := refNormalize(alt)
+			altPath := alt
+			for _, pfx := range prefixSpellings {
+				if replay && strings.HasPrefix(alt, pfx+"/") {
+					altPath = strings.TrimPrefix(alt, pfx)
+				}
+			}
+			a, okA := refNormalize(altPath)
 			c, okC := refNormalize(rq.Raw)
 			if !okA || !okC || a != c {
 				u.T.Errorf("HARNESS BUG: respell(%q) = %q is not equivalent", rq.Raw, alt)
 				continue
 			}
-			o, _, ok := pr.observe(Request{Method: rq.Method, Raw: alt, SafeOf: -1})
+			probe := Request{Method: rq.Method, Raw: alt, SafeOf: -1}
+			for _, pfx := range prefixSpellings {
+				// a replayed prefix case: the alternative carries the (re-spelled) prefix
+				if replay && strings.HasPrefix(alt, pfx+"/") {
+					probe = Request{Method: rq.Method, Raw: strings.TrimPrefix(alt, pfx), Prefix: true, PrefixAs: pfx, SafeOf: -1}
+				}
+			}
+			o, _, ok := pr.observe(probe)
 			if !ok {
 				continue
 			}
@@ -128,5 +141,36 @@ func runRespell(u *vk.Unit, pr *pkgRun) {
 				u.Sample(cs)
 			}
 		}
+		// the same request through the server that is configured with a path prefix, the PREFIX part
+		// of the wire path written in equivalent spellings too (unreserved characters percent-escaped)
+		if base.handlerCalls > 0 {
+			for j, pfx := range prefixSpellings {
+				alt := rq.Raw
+				if j%2 == 1 && len(alts) > 0 {
+					alt = alts[j%len(alts)]
+				}
+				o, _, ok := pr.observe(Request{Method: rq.Method, Raw: alt, Prefix: true, PrefixAs: pfx, SafeOf: -1})
+				if !ok {
+					continue
+				}
+				u.Eval(1)
+				u.Label("respelt-prefix")
+				cs := RespellCase{Routes: pr.meta.Routes, Method: rq.Method, Canonical: rq.Raw, Respelt: pfx + alt}
+				if o.panicked != "" {
+					u.Report(vk.F("respell-panic", "%s %q (prefixed server) panics: %s", rq.Method, pfx+alt, o.panicked), cs)
+					continue
+				}
+				if obsKey(o) != obsKey(base) {
+					cl := "respell-prefix-differs"
+					if pr.staticNeedsEscaping() {
+						cl = "static-text-needs-escaping"
+					}
+					u.Report(vk.F(cl, "%s %q → %s, but the server with prefix %q given %q → %s", rq.Method, rq.Raw, obsText(base), pathPrefix, pfx+alt, obsText(o)), cs)
+				}
+			}
+		}
 	}
 }
+
+// prefixSpellings: the configured prefix and equivalent spellings of it.
+var prefixSpellings = []string{pathPrefix, "/%5Fpfx", "/_%70fx", "/_pf%78", "/%5f%70%66%78"}
